@@ -42,6 +42,13 @@ static void do_produced(int n) {
             }
             free(cs); free(ch);
         }
+        /* childPosToCell at every depth (no enumeration needed): first, last, middle and random positions; every fourth time the
+           parent is coarse (res 0..2, pentagons included) and the child resolution 12..15 */
+        { H3Index par = h; int pr = res, ccr = cr;
+          if (it % 4 == 0) { pr = (int)vt_randn(3); par = vt_random_cell(pr); if (it % 8 == 0) { H3Index pp[12]; getPentagons(pr, pp); par = pp[vt_randn(12)]; } ccr = 12 + (int)vt_randn(4); }
+          int64_t sz; if (!cellToChildrenSize(par, ccr, &sz) && sz > 0) {
+              int64_t ps[5] = {0, sz - 1, sz / 2, (int64_t)(vt_rand01() * (double)sz), (int64_t)(vt_rand01() * (double)sz)};
+              for (int q = 0; q < 5; q++) if (ps[q] >= 0 && ps[q] < sz && !childPosToCell(ps[q], par, ccr, &o)) ev_prod("childPosToCell", o); } }
         int k = (int)vt_randn(4);
         int64_t dsz; maxGridDiskSize(k, &dsz);
         H3Index *d = calloc(dsz, sizeof(H3Index)); int *dist = calloc(dsz, sizeof(int));
